@@ -8,7 +8,7 @@ CHECKS["C20"] = dict(
     level_text=("Each generated plan runs 1-4 writers (persist+stream and stream-only, optional lower-authority contender whose samples are tagged) and 1-4 streamers (stable, re-subscribing, disconnecting mid-run, stalled) concurrently on one database. "
                 "Per streamer: per-channel sequence numbers strictly increase (no duplicate, no reorder), every series belongs to a requested key set, nothing written by the unauthorised writer arrives, and a stable always-ready streamer (slow-consumer timeout raised to 60 s through the verif hook) receives every frame whose Write returned after its open ack. "
                 "With the production 20 ms timeout and stalled consumers everything must still return. Schedules are sampled, not enumerated; the race detector is the schedule-independent oracle."),
-    level_note="Trusted: the verif hook WithVerifStreamingConfig (sets the existing unexported streaming configuration), the race detector, the 120 s stall watchdog (declared exception: a stall that long, where microseconds are expected, is reported).",
+    level_note="Added later: TestC20Virtual, a sequential companion on one virtual channel (shared-mode control: every writer at the leading authority is authorised): open / set authority / write, also frames without samples / close of up to three writers, one always-ready streamer that must receive exactly the authorised frames in order, marker frame as a bound. Trusted: the verif hook WithVerifStreamingConfig (sets the existing unexported streaming configuration), the race detector, the 120 s stall watchdog (declared exception: a stall that long, where microseconds are expected, is reported).",
     rule=("plans: writers x frames(1-40) x samples per frame(1-3), one writer in three also owns an int64 data channel carried in every frame, one writer in four has a lower-authority contender "
           "opened on the index, on the data channel only, or on both; streamer kinds {stable, re-subscribe after k frames of writer 0, disconnect after k frames, stalled} over subsets of all index and data keys; "
           "20% of plans use the production 20 ms timeout. Always-ready stable streamers must receive every frame on their keys; always-ready re-subscribed streamers every frame on a key of the new set whose Write began "
